@@ -42,19 +42,9 @@ func Equal(a, b any) bool { //nolint: gocyclo
 		if ra.Len() != rb.Len() {
 			return false
 		}
-		for _, ka := range ra.MapKeys() {
-			kb := ka
-			if kb.Kind() == reflect.Interface && !kb.IsNil() {
-				kb = kb.Elem()
-			}
-			if kt := rb.Type().Key(); !kb.Type().AssignableTo(kt) {
-				if kb.Kind() != kt.Kind() || !kb.Type().ConvertibleTo(kt) {
-					return false
-				}
-				kb = kb.Convert(kt)
-			}
-			vb := rb.MapIndex(kb)
-			if !vb.IsValid() || !Equal(ra.MapIndex(ka).Interface(), vb.Interface()) {
+		for iter := ra.MapRange(); iter.Next(); {
+			vb := MapEntry(rb, iter.Key().Interface())
+			if !vb.IsValid() || !Equal(iter.Value().Interface(), vb.Interface()) {
 				return false
 			}
 		}
